@@ -19,8 +19,8 @@ META = {
     "level": "exploration",
     "budget": {"quick": {"seconds": 90, "runs": 500},
                "thorough": {"seconds": 1500, "runs": 10**9}},
-    "rule": ("one evaluation = one frame (0-40 rows; key column int / string / float with NaN / categorical with "
-             "duplicates; 1-6 input partitions, some empty) x op in {shuffle, sort_values, set_index, "
+    "rule": ("one evaluation = one frame (0-40 rows; key column int / string (also with nulls) / float with NaN / categorical "
+             "with a permuted category order, ordered or not, also with nulls; duplicates; 1-6 input partitions, some empty) x op in {shuffle, sort_values, set_index, "
              "drop_duplicates, unique, nunique} x npartitions out / split_out x shuffle_method in {tasks with "
              "max_branch 2-3, disk on real partd files} x ascending / na_position, built and computed under one "
              "simulated scheduler (threaded / get_async / multiprocessing boundary / sync) and completion "
